@@ -171,7 +171,7 @@ def extract_lines(tlc_out, prefix, dest):
     return n
 
 
-def tlc_trace(module, trace, outpath, timeout=1800, heap="8g"):
+def tlc_trace(module, trace, outpath, timeout=1800, heap="8g", focus=()):
     """Validate one NDJSON trace against a trace specification.
     Returns dict(accepted, at, ev, tag, events)."""
     cfg = os.path.join(SPEC, module + ".cfg")
@@ -180,6 +180,11 @@ def tlc_trace(module, trace, outpath, timeout=1800, heap="8g"):
     e = dict(os.environ)
     e["TRACE"] = os.path.abspath(trace)
     e["JAVA_TOOL_OPTIONS"] = f"-Xss1g -Xmx{heap} -Dtlc2.tool.queue.IStateQueue=StateDeque"
+    for k in list(e):
+        if k.startswith("F_C") or k == "F_ALL":
+            del e[k]
+    for f in focus:
+        e["F_" + f] = "1"
     cmd = ["timeout", str(timeout), "tlc", "-workers", "1", "-metadir", meta, "-cleanup", "-noGenerateSpecTE",
            "-config", cfg, os.path.join(SPEC, module + ".tla")]
     t0 = time.time()
@@ -188,7 +193,8 @@ def tlc_trace(module, trace, outpath, timeout=1800, heap="8g"):
     shutil.rmtree(meta, ignore_errors=True)
     out = open(outpath, errors="replace").read()
     res = {"accepted": False, "at": None, "ev": None, "tag": None, "events": None,
-           "wall_s": round(time.time() - t0, 1), "out": outpath}
+           "wall_s": round(time.time() - t0, 1), "out": outpath,
+           "nonfocus": sorted(set(re.findall(r'<<"NONFOCUS", \d+, (\{[^}]*\}, "[^"]*")>>', re.sub(r"\s+", " ", out).replace("<< ", "<<").replace(" >>", ">>"))))}
     if p.returncode == 124:
         raise ToolError(f"TLC timed out validating {trace}")
     m = re.search(r'<<"TRACE-ACCEPTED", (\d+)>>', out)
@@ -196,7 +202,8 @@ def tlc_trace(module, trace, outpath, timeout=1800, heap="8g"):
         res["accepted"] = True
         res["events"] = int(m.group(1))
         return res
-    m = re.search(r'<<"TRACE-REJECTED", (\d+), "([^"]*)", <<(\d+), "([^"]*)">>>>', out)
+    flat = re.sub(r"\s+", " ", out).replace("<< ", "<<").replace(" >>", ">>")
+    m = re.search(r'<<"TRACE-REJECTED", (\d+), "([^"]*)", <<(\d+), "([^"]*)">>>>', flat)
     if m:
         res.update(at=int(m.group(1)), ev=m.group(2), tag=m.group(4))
         if int(m.group(3)) != int(m.group(1)):
